@@ -22,8 +22,6 @@ Lemma nostuck_main c s o : SL s -> SB s -> main_handler c s o <> None.
 Proof.
   intros H B M. destruct o; unfold_handlers M.
   all: try (split_all; first [sl_contra H | sb_contra B]; fail).
-  match type of M with context [finish_tasks ?a ?b] => destruct (finish_tasks a b) as [[? ?] ?] end.
-  discriminate M.
 Qed.
 
 (* ---- the rest of a step: user drain, dropped validations, killed tasks ---- *)
